@@ -12,6 +12,8 @@ import (
 	"hash/fnv"
 	"os"
 	"path/filepath"
+	"regexp"
+	"runtime"
 	"runtime/debug"
 	"sort"
 	"strconv"
@@ -120,6 +122,8 @@ func replayDir(root string) string {
 
 // Begin starts recording for one property in this process (one shard).
 func Begin(t *testing.T, m Meta) *Recorder {
+	// unbounded recursion in the code under test ends quickly in a fatal "stack overflow" (the default limit of 1 GB takes minutes)
+	debug.SetMaxStack(256 << 20)
 	r := &Recorder{
 		T: t, Meta: m,
 		Tier:  os.Getenv("VT_TIER"),
@@ -342,6 +346,66 @@ func FuzzFail(id, sub string, c any, err error) {
 	}
 }
 
+var elidedRe = regexp.MustCompile(`\.\.\.(\d+) frames elided\.\.\.`)
+
+// Bounded runs f in a goroutine of its own and waits for it. Every 15 s it looks at the goroutine stacks: a goroutine inside the
+// code under test that is more than 5000 frames deep is runaway recursion (a structural sign, not a timing one - the clock only
+// decides when to look) and is reported through the second result; f keeps running in that case, the caller is expected to record
+// the violation and end the process (DieWithViolation). Slowness without deep recursion is never reported as a violation.
+func Bounded(f func()) (p any, runaway string) {
+	done := make(chan any, 1)
+	go func() {
+		defer func() { done <- recover() }()
+		f()
+	}()
+	const tick = 15 * time.Second
+	timer := time.NewTimer(tick)
+	defer timer.Stop()
+	for waited := time.Duration(0); ; waited += tick {
+		select {
+		case p := <-done:
+			return p, ""
+		case <-timer.C:
+			timer.Reset(tick)
+		}
+		buf := make([]byte, 8<<20)
+		buf = buf[:runtime.Stack(buf, true)]
+		for _, g := range strings.Split(string(buf), "\n\n") {
+			if !strings.Contains(g, "octohelm/gengo") {
+				continue
+			}
+			if m := elidedRe.FindStringSubmatch(g); m != nil {
+				if n, _ := strconv.Atoi(m[1]); n > 5000 {
+					top := g
+					if len(top) > 600 {
+						top = top[:600]
+					}
+					return nil, fmt.Sprintf("runaway recursion: the call has not returned after %v and its stack is more than %d frames deep: %s", waited+tick, n, strings.ReplaceAll(top, "\n", " | "))
+				}
+			}
+		}
+		if waited >= 10*time.Minute {
+			panic("harness: evaluation did not return within 10 minutes and shows no deep recursion")
+		}
+	}
+}
+
+// DieWithViolation records a violation found while a call into the code under test is still running away (see Bounded): the
+// case is stored as a replay file, the VIOLATION line is printed and the process ends (the driver lets a printed violation
+// outrank the missing part file).
+func DieWithViolation(id, sub string, c any, err error) {
+	enc, _ := json.Marshal(c)
+	dir := filepath.Join(replayDir(Root()), id)
+	_ = os.MkdirAll(dir, 0o755)
+	doc := replayDoc{Property: id, Sub: sub, Error: err.Error(), Case: json.RawMessage(enc)}
+	path := filepath.Join(dir, fmt.Sprintf("runaway-%s-%016x.json", sub, hashOf(sub, enc)))
+	if b, mErr := json.MarshalIndent(doc, "", " "); mErr == nil {
+		_ = os.WriteFile(path, b, 0o644)
+	}
+	fmt.Fprintf(Stdout, "VIOLATION property=%s replay=%s\n  sub=%s: %s\n", id, path, sub, err)
+	os.Exit(1)
+}
+
 // FuzzProp adapts a Sub to rapid.MakeFuzz: the fuzzer's bytes drive the generator.
 func FuzzProp[C any](id string, s Sub[C]) func(*rapid.T) {
 	return func(t *rapid.T) {
@@ -430,6 +494,19 @@ func (r *Recorder) regressFiles(kind string) []string {
 
 func runOracle[C any](o func(C) error, c C) error {
 	return Guard(func() error { return o(c) })
+}
+
+// traceCase: with VT_TRACE_CASE_FILE set (the driver re-runs a shard that died of a fatal stack overflow this way), the case
+// about to be evaluated is written out first, so that the case the process died in is known afterwards.
+func traceCase(id, sub string, enc []byte) {
+	tf := os.Getenv("VT_TRACE_CASE_FILE")
+	if tf == "" {
+		return
+	}
+	doc := replayDoc{Property: id, Sub: sub, Error: "the process died of a fatal error (stack overflow) while this case was being evaluated", Case: json.RawMessage(enc)}
+	if b, err := json.MarshalIndent(doc, "", " "); err == nil {
+		_ = os.WriteFile(tf, b, 0o644)
+	}
 }
 
 // Search replays committed regression inputs and known findings for this sub,
@@ -569,6 +646,7 @@ func Search[C any](r *Recorder, s Sub[C]) {
 					ntSub++
 				}
 			}
+			traceCase(r.Meta.ID, s.Name, enc)
 			if err := runOracle(s.Oracle, c); err != nil {
 				failing = true
 				r.counting = false
@@ -633,6 +711,7 @@ func Enumerate[C any](r *Recorder, name string, cases func(yield func(C) bool), 
 			cl = classes(c)
 		}
 		r.Case(name, enc, nontrivial == nil || nontrivial(c), cl)
+		traceCase(r.Meta.ID, name, enc)
 		if err := runOracle(oracle, c); err != nil {
 			r.Violation(name, enc, err)
 			return false
